@@ -215,16 +215,21 @@ func C20Scenarios(tier string) []*h.Scenario {
 		out = append(out, s)
 	}
 	// registration lag: scale up, wait out the cool-down, odd nodes register meanwhile
-	for _, fleet := range []bool{false, true} {
+	for _, mode := range []string{"setdesired", "fleet", "fleet-zero-timeout"} {
+		fleet := mode != "setdesired"
 		g := StdGroup("g1")
 		g.Opts.MaxNodes = 10
 		g.ASG.Max = 10
-		name := "c20.lag.setdesired"
+		name := "c20.lag." + mode
 		if fleet {
 			g.Opts.AWS.LaunchTemplateID, g.Opts.AWS.LaunchTemplateVersion = "lt-1", "1"
-			name = "c20.lag.fleet"
 		}
 		s := &h.Scenario{Name: name, Groups: []h.GroupSpec{g}, Slots: 6, Quantum: Q, MaxEventsPerSlot: 1, FaultOps: c20AllOps, FleetTimeout: 2500 * time.Millisecond}
+		if mode == "fleet-zero-timeout" {
+			// a configured ready timeout of zero: every fleet scale-up fails at once and is cleaned up
+			s.FleetTimeout = -1
+			s.Slots = 4
+		}
 		s.Init = func(hh *h.Hist) {
 			a := InitASGs(hh)[0]
 			for i := 0; i < 2; i++ {
@@ -235,6 +240,21 @@ func C20Scenarios(tier string) []*h.Scenario {
 		s.Events = func(hh *h.Hist, slot int) []h.Event {
 			return []h.Event{evAddOddNode(g, ""), evAddOddNode(g, "garbage"), evAddOddNode(g, "aws://x"), evAddOddNode(g, "aws:///az-a"), evAddOddNode(g, "aws:///az-a/"), evAddOddNode(g, "a/b/c/d/e/f"), evAddNoAllocNode(g), evBurst(g, 2, 900), evClearAllPods(g), evRestart(), evDescInsDown(),
 				{Label: "instances-never-ready", Apply: func(hh *h.Hist) { hh.W.ReadyFromPoll = -1 }}}
+		}
+		out = append(out, s)
+	}
+	// auto-discovered bounds on a cloud group whose maximum is currently 0: no nodes, pods waiting
+	{
+		g := StdGroup("g1")
+		g.Opts.MinNodes, g.Opts.MaxNodes = 0, 0
+		g.ASG.Min, g.ASG.Max = 0, 0
+		s := &h.Scenario{Name: "c20.auto-zero-max", Groups: []h.GroupSpec{g}, Slots: 4, Quantum: Q, MaxEventsPerSlot: 1, FaultOps: c20AllOps}
+		s.Init = func(hh *h.Hist) {
+			InitASGs(hh)
+			hh.W.AddPod(podOn(g, "", 500))
+		}
+		s.Events = func(hh *h.Hist, slot int) []h.Event {
+			return []h.Event{evBurst(g, 2, 900), evClearAllPods(g), evRestart(), evASGEdit(g.ASG.Name, 0, 3), evASGEdit(g.ASG.Name, 0, 0)}
 		}
 		out = append(out, s)
 	}
